@@ -1,7 +1,9 @@
 import CJ.Lemmas.RegistrySpec
 import CJ.Lemmas.RegistryBuckets
+import CJ.Lemmas.RegistryX
 import CJ.Gen.RegistryConsts
 import CJ.Gen.SweepTicker
+import CJ.Gen.ExpiryShape
 /-!
 # C08 — registrations expire on schedule: never early, never kept past their lifetime
 
@@ -474,5 +476,193 @@ example : spec cfg0 [.register ("10.0.0.1", "idMin") 0 5, .track ("10.0.0.1", "i
     .markActive ("10.0.0.1", "idMin") 0, .sweep 700] ("10.0.0.1", "idMin") = some ⟨5, true⟩ := by decide
 example : (brun cfg0 hist0).buckets = ["10.0.0.1"] := by
   simp [brun, hist0, bstep, register, cfg0, binit, creates, addBucket]
+
+/-! ### a sweep that is interrupted between collection and removal
+
+`removeOldRegistrations` collects the expired indices under the read lock and removes them afterwards,
+one write-lock acquisition each; connection handlers and ingest workers run in between.  `s1` below is
+the state the removal loop finds, `ks` the list collected earlier. -/
+
+/-- **Exactness of the removal loop on the state it finds**: a registration is gone after the loop iff
+it was in the collected list AND its record is expired in the state the loop runs on — the decision is
+made again at removal time, not taken over from collection time. -/
+theorem split_sweep_exact (c : Cfg) (s1 : St) (hi : Inv s1) (now : Nat) (ks : List Key) (k : Key) :
+    tracked (removeAllS c now ks s1) k ↔
+      tracked s1 k ∧ ¬ (k ∈ ks ∧ ∃ t, s1.timeouts[k]? = some t ∧ expired c now t = true) := by
+  have h := removeAllS_get c now ks s1 hi k
+  unfold tracked
+  by_cases hx : k ∈ ks ∧ ∃ t, s1.timeouts[k]? = some t ∧ expired c now t = true
+  · rw [if_pos hx] at h
+    have hd : (removeAllS c now ks s1).decoys[k]? = none := congrArg Prod.fst h
+    rw [not_contains_of_getElem? _ _ hd]
+    constructor
+    · intro e; cases e
+    · rintro ⟨_, hn⟩; exact absurd hx hn
+  · rw [if_neg hx] at h
+    have hd : (removeAllS c now ks s1).decoys[k]? = s1.decoys[k]? := congrArg Prod.fst h
+    rw [HashMap.contains_eq_isSome_getElem?, hd, ← HashMap.contains_eq_isSome_getElem?]
+    exact ⟨fun e => ⟨e, hx⟩, fun e => e.1⟩
+
+/-- never early under interruption: whatever happened since the collection and whatever was collected,
+a registration whose record satisfies the age rule when the removal loop runs is kept -/
+theorem split_sweep_never_early (c : Cfg) (s1 : St) (hi : Inv s1) (now : Nat) (ks : List Key) (k : Key) (t : TO)
+    (hk : tracked s1 k) (ht : s1.timeouts[k]? = some t) (ha : alive c now t) :
+    tracked (removeAllS c now ks s1) k := by
+  refine (split_sweep_exact c s1 hi now ks k).mpr ⟨hk, ?_⟩
+  rintro ⟨_, t', ht', he⟩
+  rw [ht] at ht'; cases ht'
+  rw [(not_expired_iff_alive c now t).mpr ha] at he; cases he
+
+/-- in particular **a connection that is matched after the registration was collected as expired keeps
+it** (any history before, any enabled transport, the registration younger than the active lifetime) -/
+theorem interrupted_by_connection_survives (c : Cfg) (s0 : St) (hr : Reach c s0) (now : Nat) (k : Key)
+    (tr : Nat) (t : TO) (hen : c.enabled.contains tr = true) (hk : tracked s0 k)
+    (ht : s0.timeouts[k]? = some t) (hage : now - t.time ≤ c.activeT) :
+    tracked (removeAllS c now (collect c now s0) (markActive c s0 k tr).1) k := by
+  have hi : Inv (markActive c s0 k tr).1 := inv_markActive c s0 k tr (reach_inv hr)
+  have hk' : tracked (markActive c s0 k tr).1 k := by
+    unfold tracked at *; rw [markActive_decoys]; exact hk
+  exact split_sweep_never_early c _ hi now _ k _ hk' (markActive_sets_used c s0 k tr t hen ht).1
+    ⟨hage, Or.inl rfl⟩
+
+/-- never kept under interruption: a registration that was expired when the sweep collected and is
+still expired when the loop runs (nothing in between — any operations `mid` — made it alive) is forgotten -/
+theorem split_sweep_never_kept (c : Cfg) (s0 : St) (hr : Reach c s0) (mid : List Op) (now : Nat) (k : Key)
+    (t0 t1 : TO) (h0 : s0.timeouts[k]? = some t0) (he0 : expired c now t0 = true)
+    (h1 : (run c mid s0).timeouts[k]? = some t1) (he1 : expired c now t1 = true) :
+    ¬ tracked (removeAllS c now (collect c now s0) (run c mid s0)) k := by
+  have hi : Inv (run c mid s0) := inv_run c mid s0 (reach_inv hr)
+  intro h
+  exact ((split_sweep_exact c _ hi now _ k).mp h).2
+    ⟨(mem_collect c now s0 k).mpr ⟨t0, h0, he0⟩, t1, h1, he1⟩
+
+/-! ### extended histories: objects delivered again, tunnels, bursts, interrupted sweeps -/
+
+/-- whatever else happens around the registry — objects delivered with any prior `Valid` flag, tunnels
+opened and closed, bursts of any size, sweeps interrupted between collection and removal — the registry
+is in a state that a history of base operations reaches, so every theorem of this file applies to it -/
+theorem x_reach (c : Cfg) (xops : List XOp) : Reach c (xrun c xops).b.st := by
+  obtain ⟨ops, h⟩ := xrun_is_brun c xops xinit
+  exact ⟨ops, by rw [h]; exact brun_st c ops binit⟩
+
+/-- … for instance exactness of the next sweep -/
+theorem x_sweep_exact (c : Cfg) (xops : List XOp) (now : Nat) (k : Key) :
+    tracked (sweep c now (xrun c xops).b.st).1 k ↔
+      ∃ t, tracked (xrun c xops).b.st k ∧ (xrun c xops).b.st.timeouts[k]? = some t ∧ alive c now t :=
+  sweep_exact c _ (x_reach c xops) now k
+
+/-- … and the buckets of the nested map -/
+theorem x_buckets_exact (c : Cfg) (xops : List XOp) (p : String) :
+    p ∈ (xrun c xops).b.buckets ↔ ∃ i, tracked (xrun c xops).b.st (p, i) := by
+  obtain ⟨ops, h⟩ := xrun_is_brun c xops xinit
+  rw [h]
+  exact (binv_brun c ops binit binv_init).2 p
+
+/-- **Tunnels have no say in expiry**: a history with its `tunnel` / `tunnelEnd` operations removed
+leaves the same registry, the same buckets and the same sweep in progress — a registration that carries
+(or carried) any number of tunnels expires exactly like one that does not. -/
+theorem tunnels_have_no_say (c : Cfg) (xops : List XOp) :
+    (xrun c (xops.filter fun o => !o.isTunnel)).b = (xrun c xops).b ∧
+    (xrun c (xops.filter fun o => !o.isTunnel)).pending = (xrun c xops).pending := by
+  have h := xrun_filter_tunnels c xops xinit xinit rfl
+  exact ⟨congrArg Prod.fst h, congrArg Prod.snd h⟩
+
+/-- **The `Valid` flag an object carries when it is delivered is ignored** -/
+theorem prior_validity_ignored (c : Cfg) (xops : List XOp) :
+    xrun c (xops.map XOp.erasePrior) = xrun c xops :=
+  xrun_erasePrior c xops xinit
+
+/-- an object that starts a lifetime — whatever its flag was, e.g. validated in an earlier lifetime —
+is stored unvalidated, seen once, with a fresh unused record, and no lookup returns it -/
+theorem retracked_starts_unvalidated (c : Cfg) (x : XSt) (k : Key) (tr now : Nat) (prior : Bool)
+    (hen : c.enabled.contains tr = true) (hnew : x.b.st.decoys[k]? = none) :
+    (xstep c x (.trackObj k tr now prior)).1.b.st.decoys[k]? = some ⟨tr, false, 1⟩ ∧
+    (xstep c x (.trackObj k tr now prior)).1.b.st.timeouts[k]? = some ⟨now, false⟩ ∧
+    k.2 ∉ lookup (xstep c x (.trackObj k tr now prior)).1.b.st k.1 := by
+  have hs : (xstep c x (.trackObj k tr now prior)).1.b.st = (track c x.b.st k tr now).1 := rfl
+  have hen' : tr ∈ c.enabled := by simpa using hen
+  have hd : (track c x.b.st k tr now).1.decoys[k]? = some ⟨tr, false, 1⟩ := by
+    unfold track; simp [hen', hnew]
+  rw [hs]
+  refine ⟨hd, (first_track_stamps c x.b.st k tr now hen hnew).1, ?_⟩
+  intro hl
+  obtain ⟨r, hr1, hv⟩ := lookup_sound _ k.1 k.2 hl
+  have : (track c x.b.st k tr now).1.decoys[k]? = some r := hr1
+  rw [hd] at this; cases this; cases hv
+
+/-- the second half of an interrupted sweep is the removal loop over the list collected in the first
+half, run on the state it finds -/
+theorem sweepEnd_state (c : Cfg) (x : XSt) (now : Nat) (ks : List Key) (h : x.pending = some (now, ks)) :
+    (xstep c x .sweepEnd).1.b.st = removeAllS c now ks x.b.st := by
+  have e : (xstep c x .sweepEnd).1.b = (bremoveAll c now ks x.b).1 := by
+    simp only [xstep, h]
+  rw [e]
+  have h1 := (bremoveAll_fst c now ks x.b 0).1
+  simp only [bremoveAll] at h1 ⊢
+  rw [h1]
+  exact removeAll_fst c now ks x.b.st 0
+
+/-- a burst is the list of its base operations -/
+theorem bulk_is_history (c : Cfg) (x : XSt) (kind : Nat) (p pre : String) (start n tr now : Nat) :
+    (xstep c x (.bulk kind p pre start n tr now)).1.b = brun c (bulkOps kind p pre start n tr now) x.b :=
+  xstep_b c x _
+
+/-! non-vacuity of the hypotheses above -/
+example : (xstep cfg0 xinit (.trackObj ("10.0.0.1", "a") 0 5 true)).1.b.st.decoys[("10.0.0.1", "a")]? =
+    some ⟨0, false, 1⟩ :=
+  (retracked_starts_unvalidated cfg0 xinit _ 0 5 true (by decide) (by simp [xinit])).1
+example : (xstep cfg0 xinit (.sweepBegin 700)).1.pending = some (700, collect cfg0 700 xinit.b.st) := rfl
+example : tracked (removeAllS cfg0 700 (collect cfg0 700 (run cfg0 hist0))
+    (markActive cfg0 (run cfg0 hist0) ("10.0.0.1", "idMin") 0).1) ("10.0.0.1", "idMin") :=
+  interrupted_by_connection_survives cfg0 _ ⟨hist0, rfl⟩ 700 _ 0 ⟨0, false⟩ (by decide)
+    (by simp [run, hist0, step, register, cfg0, init, tracked])
+    (by simp [run, hist0, step, register, cfg0, init]) (by decide)
+
+/-! ### the shape of the sweep code (go/ast facts, regenerated from the tree under test on every run)
+
+The model's `expired` looks at the used flag, the creation time and the two lifetimes; `collect` looks at
+every record; `remove` re-evaluates `expired` before it deletes; `track` stamps the creation time once and
+`markActive` alone raises the used flag.  The harness tests this on the histories it generates; the facts
+below tie the same statements to the source text, so that a dependency on something the histories do not
+vary (another field of the registration, a counter, a cap on the work of one sweep) is noticed. -/
+
+/-- `isExpired` reads the record's status and creation time, the two lifetimes and the clock — nothing
+else (no other field of the registration or of the registry) -/
+theorem expiry_reads_only_record_and_limits :
+    CJ.Gen.expiryDecisionReads =
+      [".registrationTime", ".status", ".timeoutActive", ".timeoutUnused", "regStatusUnused", "time.Since"] := by
+  decide +kernel
+
+/-- neither the collection nor the removal loop of a sweep can stop early: every record is looked at,
+every collected index is handed to `removeRegistration` -/
+theorem sweep_never_leaves_early :
+    CJ.Gen.skipGuards.lookup "getExpiredRegistrations" = some [] ∧
+    CJ.Gen.skipGuards.lookup "removeOldRegistrations" = some [] := by
+  decide +kernel
+
+/-- `removeRegistration` can decline to delete for two reasons only — the record is gone or `isExpired`
+(evaluated again, under the write lock, before the first delete) says no; the second guard (the
+registration object is missing) reads nothing but a local -/
+theorem removal_rechecks_expiry_under_the_lock :
+    CJ.Gen.skipGuards.lookup "removeRegistration" = some [[".isExpired"], []] ∧
+    CJ.Gen.removeRechecksBeforeDelete = true := by
+  decide +kernel
+
+/-- the creation time of a record is written once, in the record `track` creates; the used flag is
+initialised there and raised by `markActive` only -/
+theorem record_written_at_creation_and_connection_only :
+    CJ.Gen.fieldWriters.filter (fun w => w.1 == "registrationTime" || w.1 == "status") =
+      [("registrationTime", "track", "literal time.Now()"), ("status", "markActive", "assign = regStatusUsed"),
+       ("status", "track", "literal regStatusUnused")] := by
+  decide +kernel
+
+/-- the two maps are written by `track` (three stores: bucket, registration, timeout record) and by
+`removeRegistration` (three deletes: timeout record, registration, emptied bucket) only -/
+theorem registry_maps_written_by_track_and_remove_only :
+    CJ.Gen.registryMapWrites =
+      [("decoys", "removeRegistration", "delete inner"), ("decoys", "removeRegistration", "delete"),
+       ("decoys", "track", "assign"), ("decoys", "track", "assign"),
+       ("decoysTimeouts", "removeRegistration", "delete"), ("decoysTimeouts", "track", "assign")] := by
+  decide +kernel
 
 end CJ.Props.C08
